@@ -509,3 +509,14 @@ M("C14", "set-value-as-wide-as-the-value", "driver/protocol/packcommand.py", "  
 M("C15", "receive-queue-keeps-the-last-32", "driver/async_peekablequeue.py", "    def __init__(self):\n        super().__init__()\n        self._marked = False\n", "    def _init(self, maxsize):\n        import collections\n        self._queue = collections.deque(maxlen=32)\n\n    def __init__(self):\n        super().__init__()\n        self._marked = False\n", rule="R12")
 M("C15", "receive-queue-on-an-unbounded-deque-twin", "driver/async_peekablequeue.py", "    def __init__(self):\n        super().__init__()\n        self._marked = False\n", "    def _init(self, maxsize):\n        import collections\n        self._queue = collections.deque()\n\n    def __init__(self):\n        super().__init__()\n        self._marked = False\n", expect="silent")
 M("C19", "session-log-rotates", "utils/shared_command.py", "        self.file_logger = logging.FileHandler(arg)", "        import logging.handlers\n        self.file_logger = logging.handlers.RotatingFileHandler(arg, maxBytes=4 << 20, backupCount=9)", rule="R13")
+
+# --------------------------------------------------------------------------- round 18 rules
+M("C01", "water-care-error-consumer-finds-its-verb-anywhere", "driver/protocol/watercare.py", "        return received_bytes.startswith(WCERR_VERB)", "        return WCERR_VERB in received_bytes", rule="R14")
+M("C02", "setter-tidies-text-input", "driver/accessor.py", "        \"\"\"Set a value in the pack structure using the initialized declaration\"\"\"\n        self._set_value(newvalue)", "        \"\"\"Set a value in the pack structure using the initialized declaration\"\"\"\n        if isinstance(newvalue, str):\n            newvalue = newvalue.strip()\n        self._set_value(newvalue)", rule="R17")
+M("C05", "refresh-handler-claims-the-stat-family", "driver/protocol/statusblock.py", "        return received_bytes.startswith(STATU_VERB) or received_bytes.startswith(\n            STATV_VERB\n        )", "        return received_bytes.startswith(b\"STAT\")", rule="R16")
+M("C07", "packet-header-found-after-a-greedy-prefix", "driver/protocol/packet.py", "        match = re.search(\n            b\"\".join(\n                [\n                    SRCCN_OPEN,", "        match = re.match(\n            b\"\".join(\n                [\n                    b\".*\",\n                    SRCCN_OPEN,", rule="R11")
+M("C09", "facade-disconnect-waits-for-its-update-task", "automation/async_facade.py", "        for device in self.all_automation_devices:\n            device.unwatch_all()", "        for device in self.all_automation_devices:\n            device.unwatch_all()\n        await asyncio.Event().wait()", rule="R11")
+M("C12", "declarations-kept-per-module-name", "async_spa.py", "_LOGGER = logging.getLogger(__name__)\n", "_LOGGER = logging.getLogger(__name__)\n_PACKS = {}\n\n\ndef _pack_for(name, struct):\n    if name not in _PACKS:\n        _PACKS[name] = importlib.import_module(name).GeckoPack(struct)\n    return _PACKS[name]\n", rule="R14")
+M("C15", "hello-frame-allows-one-separator", "driver/protocol/hello.py", "        return received_bytes.startswith(HELLO_OPEN) and received_bytes.endswith(\n            HELLO_CLOSE\n        )", "        return received_bytes.startswith(HELLO_OPEN) and received_bytes.endswith(\n            HELLO_CLOSE\n        ) and received_bytes.count(b\"|\") <= 1", rule="R13")
+M("C19", "received-line-shows-the-first-256-bytes", "driver/udp_socket.py", "            _LOGGER.debug(\"Received %s from %s\", received_bytes, remote_end)", "            _LOGGER.debug(\"Received %s from %s\", received_bytes[:256], remote_end)", rule="R14")
+M("C11", "waterfall-demand-listed-under-another-spelling", "driver/packs/inye-v3-log-83.py", "            \"UdWaterfall\",\n", "            \"UdWaterFall\",\n", rule="R12")
